@@ -35,6 +35,9 @@ function `crc` (no burst-detection property of CRC-32 is assumed).
 --   does not use it; it is kept verbatim because it is part of the stated intent.
 import SigModel.Model.Wal
 import SigModel.Lemmas.C10
+import SigModel.Model.WalRecover
+import SigModel.Lemmas.C10R
+import SigModel.Lemmas.C10Rb
 
 namespace SigModel.Props.C10
 open SigModel.Wal
@@ -140,5 +143,135 @@ theorem corrupt_detected (crc : Bytes → Nat) (ok : Bytes → Bool) (ps : List 
 /-- non-vacuity: a two-block file with a flipped payload byte under real CRC-32 meets the hypotheses -/
 example : acceptsAt crc32 ((file crc32 [[1, 2, 3], [4, 5]]).set 10 99) (frameStart [[1, 2, 3], [4, 5]] 0) = false := by
   decide +kernel
+
+end SigModel.Props.C10
+
+/-! ## C10, RECOVERY layer above the framing (Model/WalRecover.lean; lemmas Lemmas/C10R*.lean)
+
+"after a crash at any instant, restart replays from the metrics WALs exactly the datapoints … whose log append
+had completed, in order, and nothing else".  The framing theorems above deliver, per WAL file, the list of its
+completely appended blocks; here a WAL directory is a list of (file name, completed blocks).  `run cap shard h`
+is the writer of one shard after history `h` (ingest / WAL flush with or without roll-over / block rotation /
+segment rotation, the size test against MAX_WAL_FILE_SIZE_BYTES being an input of each append), a crash is the end
+of the history, `recover` is RecoverWALData as coded (directory order, grouping by the key string, ONE block per
+group, ONE flush per group), `specBlock` is the specification: the datapoints of a block whose append or block
+rotation had completed, in ingest order — no files, names or buffers in it.
+uint64 bounds on segment/block numbers are hypotheses (strconv.ParseUint). -/
+namespace SigModel.Props.C10
+open SigModel.Wal (Dp)
+open SigModel.WalRecover
+
+/-- guard: at the crash the open block has at most 10 WAL files (indices 0..9) -/
+def fewWalFiles (cap shard : Nat) (h : List Op) : Prop := (run cap shard h).walIdx < 10
+instance (cap shard : Nat) (h : List Op) : Decidable (fewWalFiles cap shard h) := by unfold fewWalFiles; infer_instance
+
+/-- the full-strength statement of the recovery property for one shard: for EVERY writer history ended by a crash,
+after RecoverWALData every block (segment, block number) on disk holds exactly the datapoints whose WAL append or
+block rotation had completed, in ingest order (blocks that never had a completed datapoint are absent). -/
+def RecoverExact : Prop :=
+  ∀ (cap shard : Nat) (h : List Op), 1 ≤ cap →
+    (run cap shard h).seg < 18446744073709551616 → (run cap shard h).blkNum < 18446744073709551616 →
+    ∀ k : Key, lookup k (diskAfterRecovery cap shard h) = specBlock cap shard h k
+
+/-- C10.R1 `recover_exact` (PARTIAL: guard `fewWalFiles`).  For every history after which the open block has at
+most 10 WAL files: recovered + durable blocks = exactly the completed datapoints per (segment, block), in order.
+This covers: nothing of a rotated block is touched, nothing buffered-but-not-appended comes back, the first WAL
+of a new segment/block carries the new ids, several files of one block are concatenated into ONE block. -/
+theorem recover_exact (cap shard : Nat) (h : List Op) (_hcap : 1 ≤ cap) (hg : fewWalFiles cap shard h)
+    (hs : (run cap shard h).seg < 18446744073709551616) (hb : (run cap shard h).blkNum < 18446744073709551616) (k : Key) :
+    lookup k (diskAfterRecovery cap shard h) = specBlock cap shard h k :=
+  SigModel.Lemmas.C10R.recover_exact cap shard h hg hs hb k
+
+/-- the guard is satisfiable with data in several files, a rotated block and a rotated segment -/
+example : fewWalFiles 2 0 [.ingest 0 ⟨1, 1, 1⟩ false, .walFlush true, .ingest 0 ⟨2, 2, 1⟩ false, .blockRotate,
+    .ingest 0 ⟨3, 3, 1⟩ false, .segRotate, .ingest 0 ⟨4, 4, 1⟩ true, .walFlush true, .ingest 0 ⟨5, 5, 1⟩ false, .walFlush false] := by
+  decide
+
+/-- C10.R1' the full statement is FALSE for the code as it is: the files of one block are replayed in directory
+(lexical) order, `…_10.wal` before `…_2.wal`.  Witness `h11`: 12 appends, each followed by a roll-over; the block
+comes back as 100,101,110,111,102,… instead of 100,…,111.  (Replayed on the real code: suite walrecover, known
+finding sig=walrecover/replay-order.) -/
+theorem recover_exact_counterexample : ¬ RecoverExact := by
+  intro hall
+  have h := hall 100 0 SigModel.Lemmas.C10R.h11 (by decide) (by decide +kernel) (by decide +kernel) (dec 0, 0, 0)
+  have hc := SigModel.Lemmas.C10R.h11_recovered
+  rw [h] at hc
+  have := hc.1.symm.trans hc.2
+  revert this
+  decide
+
+/-- C10.R1'' what survives WITHOUT the guard: every completed datapoint is recovered exactly once into its own
+block and nothing else — the recovered block is a permutation of the specification (only the order can be wrong). -/
+theorem recover_perm (cap shard : Nat) (h : List Op)
+    (hs : (run cap shard h).seg < 18446744073709551616) (hb : (run cap shard h).blkNum < 18446744073709551616) (k : Key) :
+    (lookup k (diskAfterRecovery cap shard h)).Perm (specBlock cap shard h k) :=
+  SigModel.Lemmas.C10R.recover_perm cap shard h hs hb k
+
+/-- the full-strength statement about the replay ORDER: the WAL files found after the crash form one group and are
+replayed in the order in which the writer created them -/
+def ReplayInOrder : Prop :=
+  ∀ (cap shard : Nat) (h : List Op),
+    (run cap shard h).seg < 18446744073709551616 → (run cap shard h).blkNum < 18446744073709551616 →
+    (groups (dirAfter cap shard h)).map (·.files) = [dirAfter cap shard h]
+
+/-- C10.R2 `replay_in_order` is FALSE with more than 10 files of one block -/
+theorem replay_in_order_counterexample : ¬ ReplayInOrder := by
+  intro hall
+  have h := hall 100 0 SigModel.Lemmas.C10R.h11 (by decide +kernel) (by decide +kernel)
+  have hc := SigModel.Lemmas.C10R.h11_replay_order
+  have h2 : (groups (dirAfter 100 0 SigModel.Lemmas.C10R.h11)).map (fun g => g.files.map (fun f => String.ofList f.1))
+      = ((groups (dirAfter 100 0 SigModel.Lemmas.C10R.h11)).map (·.files)).map (fun fs => fs.map (fun f => String.ofList f.1)) := by
+    simp only [List.map_map, Function.comp_def]
+  rw [h2, h] at hc
+  revert hc
+  decide +kernel
+
+/-- C10.R2 (partial) with at most 10 files the directory order IS the creation order -/
+theorem replay_in_order_partial (cap shard : Nat) (h : List Op) (hg : fewWalFiles cap shard h)
+    (hs : (run cap shard h).seg < 18446744073709551616) (hb : (run cap shard h).blkNum < 18446744073709551616) :
+    (groups (dirAfter cap shard h)).map (·.files) = [dirAfter cap shard h] :=
+  SigModel.Lemmas.C10R.replay_order_of_few cap shard h hg hs hb
+
+/-- C10.R3 `recover_flushes_once_per_block` (the structural fact whose violation is "one flush per WAL FILE"):
+for EVERY directory content — any file names, parsable or not — the groups have pairwise different keys, and
+recovery performs at most one flushBlock per group.  (`recover` flushes per GROUP by definition; that the code
+does so is tied by the correspondence run and by the call-order fact RecoverWALData.order.) -/
+theorem recover_flushes_once_per_block (d : RawDir) :
+    ((groups d).map (fun g => g.info.key)).Nodup ∧ (recover d).length ≤ (groups d).length :=
+  ⟨SigModel.Lemmas.C10R.groups_keys_nodup d, SigModel.Lemmas.C10R.recover_length_le d⟩
+
+/-- C10.R3' after a crash of the writer, recovery performs at most ONE flush, and only into the block that was
+open at the crash — whatever the replay order is (no guard): a block rotated before the crash is never rewritten. -/
+theorem recover_only_open_block (cap shard : Nat) (h : List Op)
+    (hs : (run cap shard h).seg < 18446744073709551616) (hb : (run cap shard h).blkNum < 18446744073709551616) :
+    (recover (dirAfter cap shard h)).length ≤ 1 ∧
+      ∀ kv ∈ recover (dirAfter cap shard h), kv.1 = (dec shard, (run cap shard h).seg, (run cap shard h).blkNum) :=
+  SigModel.Lemmas.C10R.recover_only_open_block cap shard h hs hb
+
+/-- C10.R4 `new_segment_wal_has_new_id`: after EVERY history — in particular right after a segment rotation — the
+WAL files that exist are exactly index 0..currentWALIndex of the OPEN (segment, block) of this shard: the first WAL
+of a new segment carries the new segment id (dpWalState.segID is set before the new WAL is created). -/
+theorem new_segment_wal_has_new_id (cap shard : Nat) (h : List Op) :
+    (run cap shard h).files.map (·.1) =
+      (List.range ((run cap shard h).walIdx + 1)).map
+        (fun i => ({ shard := shard, seg := (run cap shard h).seg, blk := (run cap shard h).blkNum, idx := i } : WalName)) :=
+  SigModel.Lemmas.C10R.files_of_open_block cap shard h
+
+/-- non-vacuity of R4: right after a segment rotation the only WAL is (segment 1, block 0, index 0) -/
+example : (run 2 0 [.ingest 0 ⟨1, 1, 1⟩ false, .walFlush true, .segRotate]).files.map (·.1)
+    = [{ shard := 0, seg := 1, blk := 0, idx := 0 }] := by decide
+
+/-- C10.R5 the file names the writer produces are parsed back by extractWALFileInfo's parser to their shard,
+segment and block, the key being `<shard>_<seg>_<blk>` (the WAL index is not looked at). -/
+theorem parseName_render (f : WalName) (hs : f.seg < 18446744073709551616) (hb : f.blk < 18446744073709551616) :
+    parseName (render f) = some { mId := dec f.shard, seg := f.seg, blk := f.blk,
+                                  key := dec f.shard ++ '_' :: (dec f.seg ++ '_' :: dec f.blk) } :=
+  SigModel.Lemmas.C10R.parseName_render f hs hb
+
+/-- C10.R6 the Oracle's shortcut for generated bulk loads (`ingestMany`) is the step-by-step model -/
+theorem ingestMany_eq_foldl (cap name : Nat) (roll : Bool) (ds : List Dp) (st : WState)
+    (hne : ds ≠ []) (hroom : st.buf.length + ds.length ≤ cap) :
+    (ds.map (fun d => Op.ingest name d roll)).foldl (step cap) st = ingestMany name ds st :=
+  SigModel.Lemmas.C10R.ingestMany_eq_foldl cap name roll ds st hne hroom
 
 end SigModel.Props.C10
